@@ -290,8 +290,9 @@ def run(transport, fault, victim, step, paused=False, second=None):
         expect_clients = len(conns) - len(victims) + 1
         if len(router.clients) != expect_clients:
             fails.append(("router-client-count", d0, "step %d: Router.clients has %d entries, expected %d" % (step, len(router.clients), expect_clients)))
-        if len(router.blob_routing) != expect_clients:
-            fails.append(("router-blob-routing-count", d0, "step %d: Router.blob_routing has %d entries, expected %d" % (step, len(router.blob_routing), expect_clients)))
+        stale = [c for c in router.blob_routing if c not in router.clients]
+        if stale:
+            fails.append(("router-blob-routing-stale", d0, "step %d: Router.blob_routing keeps %d entries of connections that are no longer registered" % (step, len(stale))))
     finally:
         s.close()
     return fails, True
